@@ -255,6 +255,8 @@ def join_blocks(bs: list[list[str]], tight: bool = False) -> list[str]:
 
 def gen_document(rng: random.Random, clean: bool = True, max_blocks: int = 6, frontmatter: bool = False, **kw) -> str:
     bs = blocks(rng, 0, rng.randint(1, max_blocks), clean=clean, **kw)
+    if bs and bs[0] == ["---"]:
+        bs[0] = ["***"]  # a document whose first line is `---` is (unclosed) frontmatter, not a rule (C07)
     text = "\n".join(join_blocks(bs)) + "\n"
     if frontmatter and rng.random() < 0.3:
         text = "---\ntitle: \"T ... 'x'\"\n---\n" + text
